@@ -12,7 +12,7 @@ from .common.codec import hx, unhx
 from .common.c02pipe import make_connector
 
 PROPERTY = "C02"
-LEAN_MODULES = ["AioProps.C02"]
+LEAN_MODULES = ["AioProps.C02", "AioProps.C02Chunked"]
 THEOREMS = [
     "Aio.C02.onHeaderBlock_eq_cascade",
     "Aio.C02.resp_framing_agree",
@@ -30,6 +30,11 @@ THEOREMS = [
     "Aio.C02.untilClose_body_segments",
     "Aio.C02.response_roundtrip_length",
     "Aio.C02.response_roundtrip_chunked_partial",
+    "Aio.Http.chunkSizeOf_toHex",
+    "Aio.Http.chunkedLoop_lastChunk",
+    "Aio.Http.chunkedLoop_frame",
+    "Aio.Http.payloadFeed_encodeChunks",
+    "Aio.C02.response_roundtrip_chunked",
 ]
 RULE = ("one case = one HTTP exchange through the public APIs followed by a probe request on the same session. "
         "Grammar: session version {1.1,1.0} x connector force_close x method {GET,HEAD,POST,PUT,PATCH,DELETE,OPTIONS} x URL shape "
@@ -51,7 +56,9 @@ TRUSTED_BASE = [
     "header transport itself (serialise on one side, parse on the other) is abstracted in the model as the record RecvHdr "
     "(Content-Length value, chunked flag, Connection token): C04 serialize_lines + the shared parser model, run here on the recorded "
     "wire of sampled exchanges, cover it — there is no C02 theorem that parse(serialise(headers)) = headers",
-    "the receiver's chunked decoding is the reference RFC 9112 decoder in response_roundtrip_chunked_partial, not Aio.Http.chunkedLoop",
+    "response_roundtrip_chunked composes the writer model with the receiver's own chunked parser model (Aio.Http.payloadFeed, strict "
+    "and lax) for delivery in ONE feed_data call; other segmentations of a chunked body follow from C03 feed_two_reads under its "
+    "stated side condition, and from the correspondence runs",
     "in-memory transport pair + segmenter (harness/common/c02pipe.py) stands in for the socket; flow control is always 'writable'",
     "virtual-time event loop (harness/common/vloop.py); executors run inline",
     "zlib not modelled: compressed length is an oracle column; compressed bodies are judged after real decompression",
